@@ -604,8 +604,22 @@ def task_c17(cond, evkind, with_timeout, polling):
             run.fail("C17|%s/setup-raises-nothing" % label, "raised %s" % e)
             return
         env = state["frame"]
-        lock, result, cbf = state["lock"], env.vars["result"], env.vars["cb"]
+        # roles are identified by what the objects ARE, not by the names of the locals holding them (renaming is harmless):
+        #   the lock is the asyncio.Event being awaited; the result record is the local object with `timeout` and `event` fields;
+        #   the temporary callback is the one registered with onevent; the poller is the scheduled coroutine with a loop, the
+        #   timeout task the other one
+        lock = state["lock"]
+        recs = [v for v in env.vars.values() if isinstance(v, IObject) and "timeout" in v.fields and "event" in v.fields]
+        new_cfgs = c.fields["callbacks"].items[ncb0:]
+        if len(recs) != 1 or len(new_cfgs) != 1:
+            raise OutOfReach("waitforevent: result record / temporary callback not identifiable (%d records, %d new callbacks)" % (len(recs), len(new_cfgs)))
+        result = recs[0]
+        cbf = new_cfgs[0].fields["callback"]
         tasks = list(I.ghost.get("tasks", []))
+        import ast as _ast0
+
+        def has_loop(t):
+            return isinstance(t, ICoroutine) and any(isinstance(n, (_ast0.While, _ast0.For)) for n in _ast0.walk(t.func.node))
         run.oblige("C17|%s/registers-exactly-one-temporary-callback" % label, z3.BoolVal(len(c.fields["callbacks"].items) == ncb0 + 1))
         run.oblige("C17|%s/timeout-task-created-iff-a-timeout-is-given,polling-task-iff-polling" % label,
                    z3.BoolVal(len(tasks) == int(with_timeout) + int(polling)))
@@ -663,7 +677,7 @@ def task_c17(cond, evkind, with_timeout, polling):
             if not with_timeout:
                 raise PathEnd()
             # --- segment: the tail of timeout_check (after its sleep)
-            tc = [t for t in tasks if isinstance(t, ICoroutine) and t.func.name == "timeout_check"]
+            tc = [t for t in tasks if isinstance(t, ICoroutine) and not has_loop(t)]
             run.oblige("C17|%s/timeout_check/is-the-scheduled-task" % label, z3.BoolVal(len(tc) == 1))
             if not tc:
                 return
@@ -681,7 +695,7 @@ def task_c17(cond, evkind, with_timeout, polling):
             if not polling:
                 raise PathEnd()
             # --- segment: poll -- it re-requests the properties only while the wait has not completed
-            pl = [t for t in tasks if isinstance(t, ICoroutine) and t.func.name == "poll"]
+            pl = [t for t in tasks if has_loop(t)]
             run.oblige("C17|%s/poll/is-the-scheduled-task" % label, z3.BoolVal(len(pl) == 1))
             if not pl:
                 return
